@@ -6,13 +6,14 @@
 (* A case is run by the harness on the three neighbour indices; float type, leaf size and the    *)
 (* index used for the dataset calling form rotate with a hash of the input.                      *)
 (* Inputs are normalised by translation (minimum coordinate 0 in every dimension).              *)
-EXTENDS Naturals, Sequences, FiniteSets, TLC, Json
+EXTENDS Integers, Sequences, FiniteSets, TLC, Json
 
 CONSTANTS Lattices,     \* set of lattices, each coded dim * 100 + maxcoord
           MinPts, MaxPts,
           MinPtsSet,
           EpsSet,       \* tolerances en/ed coded en * 10 + ed ; 0 = infinite tolerance (eps = {n: 0, d: 0})
-          Specials      \* 0 | 1 : also emit the hand-picked on-the-radius L2 inputs (3-4-5 triangles)
+          Specials,     \* 0 | 1 : also emit the hand-picked on-the-radius L2 inputs (3-4-5 triangles)
+          Hubs          \* 0 | 1 | 2 : also emit the structured "hub" family (1 = quick set, 2 = thorough set)
 
 VARIABLE case
 
@@ -50,7 +51,56 @@ SpecialPts ==
     << <<0, 0, 0>>, <<2, 3, 6>>, <<2, 3, 0>>, <<0, 0, 6>> >> }
 SpecialEps == {<<5, 1>>, <<3, 1>>, <<7, 1>>, <<13, 1>>, <<11, 2>>, <<6, 1>>}
 
+-----------------------------------------------------------------------------
+(* The "hub" family (2-D).  A hub at the origin has k border points at distance 2, one per direction; each    *)
+(* border point hangs off its own dense arm: an arm core A1 at distance 4 from the hub (2 from the border      *)
+(* point) plus a chosen subset of three extra points around A1 that are within the tolerance of A1 but not of  *)
+(* the border point.  With tolerance 5/2 (or 9/4) every distance 2 is within and every other distance between  *)
+(* parts of the figure (>= 2*sqrt(2) in L2, 4 in L1/Linf) is not, so: the border points see only themselves,   *)
+(* the hub and A1 (non-core for min_points >= 4), the hub sees itself and its k border points, and the arms    *)
+(* are separate clusters.  For min_points = k + 1 the hub is a core point *all of whose neighbours are border  *)
+(* points of other clusters*: when it comes late in the sequence every neighbour is already labelled           *)
+(* (DBSCAN) / processed (OPTICS) when the outer loop reaches it, and it must still found its own cluster /     *)
+(* be listed with its core distance.  Directions are the axes for L1/L2 and the diagonals for Linf (where      *)
+(* axis neighbours of the hub would be within the tolerance of each other).  Other (k, min_points) pairs are   *)
+(* near misses of the same figure (hub not core, or border points core so that everything merges).             *)
+Axis == << <<1, 0>>, <<0, 1>>, <<-1, 0>>, <<0, -1>> >>
+Diag == << <<1, 1>>, <<-1, 1>>, <<-1, -1>>, <<1, -1>> >>
+HDirs(metric) == IF metric = "linf" THEN Diag ELSE Axis
+HOff == 6                                         \* translation: all coordinates >= 0
+HPt(x, y) == <<x + HOff, y + HOff>>
+\* the three extra points around the arm core A1 = 4u
+HExtra(metric, u, j) ==
+  IF j = 1 THEN HPt(6 * u[1], 6 * u[2])
+  ELSE IF metric = "linf"
+    THEN (IF j = 2 THEN HPt(6 * u[1], 4 * u[2]) ELSE HPt(4 * u[1], 6 * u[2]))
+    ELSE (IF j = 2 THEN HPt(4 * u[1] + 2 * u[2], 4 * u[2] + 2 * u[1])
+                   ELSE HPt(4 * u[1] - 2 * u[2], 4 * u[2] - 2 * u[1]))
+RECURSIVE SeqOfSet(_)
+SeqOfSet(S) == IF S = {} THEN <<>> ELSE LET x == CHOOSE y \in S : \A z \in S : y <= z IN <<x>> \o SeqOfSet(S \ {x})
+HArm(metric, u, shape, bfirst) ==
+  LET body == <<HPt(4 * u[1], 4 * u[2])>> \o [q \in 1..Cardinality(shape) |-> HExtra(metric, u, SeqOfSet(shape)[q])]
+      b    == <<HPt(2 * u[1], 2 * u[2])>>
+  IN IF bfirst THEN b \o body ELSE body \o b
+RECURSIVE HArms(_, _, _, _, _)
+HArms(metric, from, to, shape, bfirst) ==
+  IF from > to THEN <<>>
+  ELSE HArm(metric, HDirs(metric)[from], shape, bfirst) \o HArms(metric, from + 1, to, shape, bfirst)
+HubPts(metric, k, shape, bfirst, hubpos) ==
+  LET hub == <<HPt(0, 0)>> IN
+  IF hubpos = "first" THEN hub \o HArms(metric, 1, k, shape, bfirst)
+  ELSE IF hubpos = "last" THEN HArms(metric, 1, k, shape, bfirst) \o hub
+  ELSE HArms(metric, 1, k - 1, shape, bfirst) \o hub \o HArms(metric, k, k, shape, bfirst)
+HShapes == {{1, 2}, {1, 3}, {2, 3}, {1, 2, 3}}
+HubK    == IF Hubs = 2 THEN 2..4 ELSE 3..4
+HubMp   == IF Hubs = 2 THEN 3..6 ELSE 4..5
+HubEps  == IF Hubs = 2 THEN {<<5, 2>>, <<9, 4>>} ELSE {<<5, 2>>}
+
 Init ==
+  \/ /\ Hubs > 0
+     /\ \E metric \in {"l1", "l2", "linf"}, k \in HubK, shape \in HShapes, bfirst \in BOOLEAN,
+           hubpos \in {"first", "middle", "last"}, mp \in HubMp, ee \in HubEps :
+          case = Mk("hub", 2, HubPts(metric, k, shape, bfirst, hubpos), mp, ee[1], ee[2], metric)
   \/ \E lt \in Lattices : \E nn \in MinPts..MaxPts :
      \E pts \in [1..nn -> Points(lt \div 100, lt % 100)] :
      \E mp \in MinPtsSet, ee \in EpsSet :
